@@ -2,7 +2,7 @@
     tree [g_getattr], is the specification below; every accessor name the translated formulas use reads
     the dictionary / canonical key the formula translation assumed, and raises when the key is missing.
     The canonical key of "IJ" is computed by the regenerated voigt model (Gen_voigt.mod_create, C10). *)
-From Coq Require Import ZArith List Bool String.
+From Coq Require Import ZArith List Bool Ascii String.
 From Cij Require Import VoigtBase.
 From CijGen Require Import VRHTieBase Gen_vrh Gen_voigt.
 Import ListNotations.
